@@ -8,6 +8,7 @@ import (
 	"fmt"
 	"os"
 	"regexp"
+	"runtime"
 	"sort"
 	"strconv"
 	"strings"
@@ -78,6 +79,44 @@ type tb interface {
 }
 
 // Main is called by the single Test function of each harness package.
+// runGuarded runs a scenario; a panic that escapes it on the scenario's own goroutine is a finding when it was
+// raised inside the code under test (the innermost non-runtime frame is not a harness or engine file), and a
+// machinery failure otherwise (it is re-raised).
+func runGuarded(s Scenario, c *Ctx) (r *Result) {
+	defer func() {
+		p := recover()
+		if p == nil {
+			return
+		}
+		pcs := make([]uintptr, 64)
+		n := runtime.Callers(2, pcs)
+		frames := runtime.CallersFrames(pcs[:n])
+		var trace []string
+		inCode := false
+		decided := false
+		for {
+			f, more := frames.Next()
+			if !strings.HasPrefix(f.Function, "runtime.") && !decided {
+				decided = true
+				inCode = !strings.Contains(f.File, "zz_verif_") && !strings.Contains(f.File, "/harness/") && !strings.Contains(f.File, "/engine/vsched")
+			}
+			if len(trace) < 12 {
+				trace = append(trace, fmt.Sprintf("%s (%s:%d)", f.Function, f.File, f.Line))
+			}
+			if !more {
+				break
+			}
+		}
+		if !inCode {
+			panic(p)
+		}
+		r = NewResult("enum")
+		r.Exhaustive, r.Cap = false, "the scenario was ended by a panic in the code under test"
+		r.Fail("panic-in-code-under-test", "%v | %s", p, strings.Join(trace, " | "))
+	}()
+	return s.Run(c)
+}
+
 func Main(t tb) {
 	tier := os.Getenv("VERIF_TIER")
 	if tier == "" {
@@ -139,7 +178,7 @@ func Main(t tb) {
 			}
 		}
 		start := time.Now()
-		r := s.Run(c)
+		r := runGuarded(s, c)
 		if r == nil {
 			continue
 		}
